@@ -5,8 +5,10 @@ MODULES = {
     "C02": ["contracts.c02_itk"],
     "C03": ["contracts.c03_derived"],
     "C08": ["contracts.c08_linalg"],
-    "C14": ["contracts.c14_bspline"],
-    "C15": ["contracts.c08_linalg"],
+    "C12": ["contracts.c12_derivatives"],
+    "C13": ["contracts.c12_derivatives"],
+    "C14": ["contracts.c14_bspline", "contracts.c12_derivatives"],
+    "C15": ["contracts.c08_linalg", "contracts.c12_derivatives"],
 }
 
 # evidence level per property ("proof" = the deciding part is discharged obligations)
